@@ -8,7 +8,7 @@ harness on every run — this part is carried by the correspondence, not by a th
 
 Idempotence for WHOLE DOCUMENTS of every kind (`encoding_is_idempotent`, from `Codec/Idem.lean`):
 
-    norm K j = ok j₁  →  Clean j₁  →  re-running the codec on j₁ (same recursion budget) = ok j₁
+    norm K j = ok j₁  →  Clean j₁  →  norm K j₁ = ok j₁
 
 where `Clean` is a decidable, kind-agnostic condition on the first output: no member with value `null`, no
 member name that is a case variant of a keyword (the property's own exception) or an upper-case `X-` spelling
@@ -29,6 +29,7 @@ mechanism is exhibited below (`items_scalar_not_fixed`).
 -/
 import SpecModel.Codec.SortLemmas
 import SpecModel.Codec.Idem
+import SpecModel.Codec.Fuel
 import SpecModel.Props.C06
 
 namespace SpecModel.Props.C07
@@ -110,10 +111,18 @@ inside and across the parts of every kind), every Schema field is `omitempty` (s
 as `{}`, reads back as `{}`), and no regular kind decodes a part it never encodes -/
 theorem idem_tables_ok : IdemTablesOK := ⟨C06.tables_ok, by decide, by decide⟩
 
-/-- **Normalisation is idempotent on clean outputs, for every kind and every input.** -/
+/-- **Normalisation is idempotent on clean outputs, for every kind and every input.**
+(`norm` derives its recursion budget from its input; `Codec/Fuel.lean` shows that budget is always enough:
+whatever any budget returns, `norm` returns — `norm_of_normF`, from fuel monotonicity and a depth bound on the
+calls each codec makes.) -/
 theorem encoding_is_idempotent (k : String) (j j₁ : Json) (h : norm k j = .ok j₁) (hc : Clean j₁) :
-    normF (fuelFor j) (.kind k) j₁ = .ok j₁ :=
-  normF_idem idem_tables_ok _ k j j₁ h hc
+    norm k j₁ = .ok j₁ :=
+  norm_of_normF (normF_idem idem_tables_ok _ k j j₁ h hc)
+
+/-- the recursion budget is irrelevant to successful runs: more never changes the answer, and `norm`'s own is enough -/
+theorem budget_irrelevant {n : Nat} {k : String} {j r : Json} (h : normF n (.kind k) j = .ok r) :
+    norm k j = .ok r ∧ ∀ m, n ≤ m → normF m (.kind k) j = .ok r :=
+  ⟨norm_of_normF h, fun _ hm => normF_mono hm _ _ _ h⟩
 
 /-- the same at any recursion budget: whatever budget produced `j₁`, that budget reproduces it -/
 theorem encoding_is_idempotent_at (fuel : Nat) (k : String) (j j₁ : Json)
